@@ -3,6 +3,7 @@
 From Coq Require Import ZArith NArith List Bool Arith String.
 From PM Require Import Model.Data Model.Mark Model.Tree Spec.Tokens Spec.TokenPos Model.Resolve Model.StepMap Model.Step
   Corr.Common Corr.Tree.
+From PM Require Import Proofs.StepSafe.
 Import ListNotations.
 Local Open Scope nat_scope.
 
@@ -124,8 +125,9 @@ Fixpoint hist_valid (s : schema) (h : list applied) : bool :=
 
 Definition holds_C01 (c : case) : bool :=
   match c with
-  (* the schema fact C01_node_step_valid assumes: ContentMatch.empty is a valid end *)
-  | CApply s doc a pv => valid_end s 0 && (if pv then result_valid s (ap_result a) else true)
+  (* the facts C01_node_step_valid / C01_step_error_class assume: ContentMatch.empty is a valid end; leaf-typed nodes of
+     the document have no children *)
+  | CApply s doc a pv => valid_end s 0 && leaves_empty_b s doc && (if pv then result_valid s (ap_result a) else true)
   | CHistory s doc h _ | CMarkOp s doc _ _ _ _ _ h _ => hist_valid s h
   | CMerge s doc a b _ mres =>
     result_valid s (ap_result a) && result_valid s (ap_result b) &&
